@@ -390,6 +390,10 @@ impl BitOps {
     /// Parallel bit extraction for multi-field compression
     #[inline]
     pub fn parallel_bit_extract_bmi2(&self, source: u64, field_masks: &[u64]) -> Vec<u64> {
+        // an empty mask list has an empty answer on every route (the BMI2 route indexes the first mask)
+        if field_masks.is_empty() {
+            return Vec::new();
+        }
         if self.config.enable_bmi2 && self.config.enable_compression_optimizations && self.features.has_bmi2 {
             return Bmi2AdvancedPatterns::pext_parallel_extract(&[source], field_masks[0])
                 .into_iter()
